@@ -5,10 +5,12 @@ import (
 	"bytes"
 	"crypto/sha256"
 	"fmt"
+	"github.com/avfs/avfs/idm/memidm"
 	"hash"
 	"hash/fnv"
 	"os"
 	"testing"
+	"verif/harness/internal/fsx"
 
 	"github.com/avfs/avfs"
 	"github.com/avfs/avfs/vfs/basepathfs"
@@ -31,17 +33,38 @@ type Case struct {
 	Side   string `json:"side"`   // "" (no fault) | src | dst
 	Fn     int    `json:"fn,omitempty"`
 	K      int    `json:"k,omitempty"`
-	Pre    bool   `json:"pre,omitempty"` // the destination already exists (longer, other content, mode 0600)
+	Pre    bool   `json:"pre,omitempty"`  // the destination already exists (longer, other content, mode 0600)
 	Used   bool   `json:"used,omitempty"` // the hasher was used before
 }
 
-var fsKinds = []string{"MemFS", "OrefaFS", "OsFS", "BasePathFS(MemFS)"}
+// "MemFS+user": a MemFS with an identity manager whose current user is not the administrator
+// (the kernel-like rules for special bits then apply to what the copy writes)
+var fsKinds = []string{"MemFS", "OrefaFS", "OsFS", "BasePathFS(MemFS)", "MemFS+user"}
+
+func specialBits(kind string) bool { return kind == "MemFS" || kind == "MemFS+user" }
 
 func newFS(kind, scratch string) (v avfs.VFS, dir string, err error) {
 	switch kind {
 	case "MemFS":
 		v = memfs.NewWithOptions(&memfs.Options{OSType: avfs.OsLinux})
 		dir = "/w"
+	case "MemFS+user":
+		idm := memidm.NewWithOptions(&memidm.Options{OSType: avfs.OsLinux})
+		_, _ = idm.AddGroup("g1")
+		u, uerr := idm.AddUser("u1", "g1")
+		if uerr != nil {
+			return nil, "", uerr
+		}
+		m := memfs.NewWithOptions(&memfs.Options{OSType: avfs.OsLinux, Idm: idm})
+		_ = m.SetUMask(0o022)
+		if err = m.MkdirAll("/w", 0o777); err != nil {
+			return nil, "", err
+		}
+		_ = m.Chmod("/w", 0o777)
+		if err = m.SetUser(u); err != nil {
+			return nil, "", err
+		}
+		return m, "/w", nil
 	case "OrefaFS":
 		v = orefafs.NewWithOptions(&orefafs.Options{OSType: avfs.OsLinux})
 		dir = "/w"
@@ -138,7 +161,7 @@ func run(c *vt.Ctx, cs Case, scratch string) (dev *vt.Deviation, srcCounts, dstC
 		c.Inconclusive("setup: " + err.Error())
 		return
 	}
-	perm := os.FileMode(cs.Perm)
+	perm := fsx.ModeFromBits(cs.Perm)
 	if err := srcBase.Chmod(srcPath, perm); err != nil {
 		c.Inconclusive("setup: " + err.Error())
 		return
@@ -243,6 +266,13 @@ func run(c *vt.Ctx, cs Case, scratch string) (dev *vt.Deviation, srcCounts, dstC
 	}
 	if info.Mode().Perm() != perm.Perm() {
 		dev = mk("perm", fmt.Sprintf("nil error but the destination has permission %o, the source %o", info.Mode().Perm(), perm.Perm()))
+		return
+	}
+	// set-user-ID, set-group-ID and sticky are permission bits too (chmod(2)); compared where both
+	// sides keep them
+	const special = os.ModeSetuid | os.ModeSetgid | os.ModeSticky
+	if specialBits(cs.Src) && specialBits(cs.Dst) && info.Mode()&special != perm&special {
+		dev = mk("perm", fmt.Sprintf("nil error but the destination has mode %v, the source %v", info.Mode(), perm))
 	}
 	return
 }
@@ -304,7 +334,12 @@ func TestCheck(t *testing.T) {
 								continue
 							}
 							// every other case starts with an existing destination
-							base := Case{Func: fn, Src: src, Dst: dst, Size: size, Perm: perm, Hasher: hs}
+							p12 := perm
+							if specialBits(src) && specialBits(dst) {
+								// where both sides keep them, half of the cases carry special bits as well
+								p12 |= []uint32{0, 0o4000, 0o2000, 0o6000, 0, 0o1000, 0, 0o4000}[idx%8]
+							}
+							base := Case{Func: fn, Src: src, Dst: dst, Size: size, Perm: p12, Hasher: hs}
 							base.Pre = fn != "HashFile" && vt.Hash64(fmt.Sprintf("%+v", base))%2 == 0
 							base.Used = hs != "nil" && vt.Hash64(fmt.Sprintf("used %+v", base))%2 == 0
 							dev, sc, dc, _, _ := run(c, base, scratch)
